@@ -107,8 +107,22 @@ def check_case(strings, with_null, job, registry, absent_at=None, nest=False, co
     if nest:
         # the position sits in a model of its own below the root (a nested class in the nested layout)
         samples = [{"inner": smp, "top": 1} for smp in samples]
-    reg, text = real.run_library([("Root", samples)], registry, common.cmps_choice.__defaults__ or [], job) \
-        if False else real.run_library([("Root", samples)], registry, [], job)
+    if job.get("viaCli"):
+        # the same position through the command line: `--max-strings-literals N` given explicitly (0 included) or left out
+        import os
+        import tempfile
+        from .. import clitools
+        with tempfile.TemporaryDirectory(prefix="j2m-c10-") as d:
+            clitools.write_files(d, {"f.json": samples})
+            argv = ["-m", "Root", "f.json", "-f", job["fw"], "-s", job["layout"]]
+            if not job.get("omitLimit"):
+                argv += ["--max-strings-literals", str(job["maxLit"])]
+            rc, out, err = clitools.run_cli(argv, d, os.environ.get("J2M_REPO", "/repo"))
+        if rc != 0:
+            return {"kind": "module-does-not-load", "observed": f"CLI exit {rc}: {err[-300:]}", "argv": argv}
+        text = out
+    else:
+        reg, text = real.run_library([("Root", samples)], registry, [], job)
     ns = real.load_module(text)
     cls = ns["Root"]
     chain = []
@@ -184,6 +198,16 @@ def falsify(ctx):
             container, with_null, absent_at, nest = "objlist", False, None, False
             if rng.random() < 0.5:
                 strings = ["a", "b", "c", "d", rng.choice(["e", "x" * 20, "f"])][:rng.randint(3, 5)]
+        if i >= len(sweep) and (i - len(sweep)) < ctx.n(14, 80):
+            # through the command line: the limit given explicitly (0, 1, around the number of values, the default, above
+            # it) or left out
+            k = rng.choice([2, 3, 5, 9, 12])
+            strings = ["v%dz" % j for j in range(k)]
+            lim = [0, 0, 1, k, k + 1, 10, 16, 20, None][(i - len(sweep)) % 9]
+            job.update({"viaCli": True, "fw": rng.choice(["base", "dataclasses", "pydantic"]), "meta": False,
+                        "convertUnicode": True, "maxLit": 10 if lim is None else lim, "omitLimit": lim is None})
+            job.pop("renderFirst", None)
+            container, with_null, absent_at = None, False, None
         try:
             hit = check_case(strings, with_null, job, registry, absent_at, nest, container)
         except stages.TooCostly:
